@@ -236,3 +236,27 @@ package etcd
 //@   ensures [errors-pass-through] (err == nil) == (be_err == nil) && (err != nil ==> resp == nil)
 //@   ensures [header-is-the-backends] err == nil ==> resp != nil && resp.Header != nil && resp.Header.Revision == int64(R.Header.Revision)
 //@   ensures [count-and-kv] err == nil ==> len(resp.Kvs) == ite(R.Kv != nil, 1, 0) && resp.Count == ite(R.Kv != nil, 1, 0) && (R.Kv != nil ==> resp.Kvs[0] != nil && resp.Kvs[0].Key == R.Kv.Key && resp.Kvs[0].Value == R.Kv.Value && resp.Kvs[0].ModRevision == int64(R.Kv.Revision))
+
+// a range read is one backend List of the interval, limit and revision asked for (that every key-value
+// is passed on in order is a conversion loop over append, not claimed); count is the number returned, plus one when more are left (etcd's count is
+// "at least", Kubernetes only tests it against the number returned)
+//@ func (*backendShim).List(ctx, r) (resp, err)
+//@   props C16
+//@   nosafety
+//@   requires b != nil && b.backend != nil && r != nil && synced
+//@   modifies inferred:(*backendShim).List ghost.backend_reads ghost.be_op ghost.be_req ghost.be_resp ghost.be_err
+//@   let Q = asref(be_req, "*proto.RangeRequest")
+//@   let R = asref(be_resp, "*proto.RangeResponse")
+//@   ensures [one-backend-list-as-asked] backend_reads == old(backend_reads)+1 && be_op == 5 && be_req != nil && Q.Key == r.Key && Q.End == r.RangeEnd && Q.Limit == r.Limit && Q.Revision == uint64(r.Revision)
+//@   ensures [errors-pass-through] (err == nil) == (be_err == nil) && (err != nil ==> resp == nil)
+//@   ensures [header-more-count] err == nil ==> resp != nil && resp.Header != nil && resp.Header.Revision == int64(R.Header.Revision) && resp.More == R.More && resp.Count == ite(R.More, len(R.Kvs)+1, len(R.Kvs))
+
+//@ func (*backendShim).Count(ctx, r) (resp, err)
+//@   props C16
+//@   requires b != nil && b.backend != nil && r != nil && synced
+//@   modifies ghost.backend_reads ghost.be_op ghost.be_req ghost.be_resp ghost.be_err
+//@   let Q = asref(be_req, "*proto.CountRequest")
+//@   let R = asref(be_resp, "*proto.CountResponse")
+//@   ensures [one-backend-count-as-asked] backend_reads == old(backend_reads)+1 && be_op == 6 && be_req != nil && Q.Key == r.Key && Q.End == r.RangeEnd
+//@   ensures [errors-pass-through] (err == nil) == (be_err == nil) && (err != nil ==> resp == nil)
+//@   ensures [header-and-count-are-the-backends] err == nil ==> resp != nil && resp.Header != nil && resp.Header.Revision == int64(R.Header.Revision) && resp.Count == int64(R.Count)
